@@ -1,5 +1,5 @@
 (* Proofs for the framing layer, second half (C09; frame_roundtrip is also what C02 needs).
-   Part C  integer formatting: digits only, one decimal digit, two hex digits   (fmt_dec_clean, fmt_dec_digit, hex2_roundtrip)
+   Part C  integer formatting: digits only, one decimal digit, two hex digits   (fmt_dec_clean, dec_ok_nonneg, hex2_roundtrip)
    Part D  XOR checksum                                                          (fold_left_lxor, xor_all_range)
    Part E  reading back what the template writes                                 (view_sentence, checksum_sentence)
    Part F  ais_to_nmea_0183 satisfies every clause of Spec/FrameSpec             (frame_wellformed, frame_roundtrip)
@@ -36,7 +36,7 @@ Proof.
   - constructor; [left; reflexivity|]. apply digits_fuel_Forall; auto.
 Qed.
 
-Lemma fmt_dec_digit : forall k, 0 <= k <= 9 -> fmt_dec k = [48 + k].
+Lemma fmt_dec_one_digit : forall k, 0 <= k <= 9 -> fmt_dec k = [48 + k].
 Proof.
   intros k H.
   assert (k = 0 \/ k = 1 \/ k = 2 \/ k = 3 \/ k = 4 \/ k = 5 \/ k = 6 \/ k = 7 \/ k = 8 \/ k = 9) as D by lia.
@@ -51,6 +51,48 @@ Proof.
   intros k H. unfold dec_ok.
   assert (k = 0 \/ k = 1 \/ k = 2 \/ k = 3 \/ k = 4 \/ k = 5 \/ k = 6 \/ k = 7 \/ k = 8 \/ k = 9) as D by lia.
   repeat (destruct D as [D|D]; [subst; reflexivity|]). subst; reflexivity.
+Qed.
+
+(* ... and for every non-negative integer: the digits are produced least significant first into an accumulator;
+   reading them back multiplies the value read so far by 10^k and adds n *)
+Lemma size_nat_bound : forall p, Zpos p < 2 ^ Z.of_nat (Pos.size_nat p).
+Proof.
+  induction p as [p IH|p IH|]; cbn [Pos.size_nat]; rewrite ?Nat2Z.inj_succ, ?Z.pow_succ_r by lia; lia.
+Qed.
+
+Lemma digits_fuel_nonempty : forall digit base fuel n acc, acc <> [] -> fmt_digits_fuel digit base fuel n acc <> [].
+Proof.
+  induction fuel as [|f IH]; intros n acc H; simpl; auto.
+  destruct (n <? base); [congruence|]. apply IH. congruence.
+Qed.
+
+Lemma dec_digits_read : forall fuel n acc, 0 <= n < 2 ^ Z.of_nat fuel ->
+  exists k, 0 <= k /\ forall a, fs_dec_val_acc a (fmt_digits_fuel fmt_dec_digit 10 fuel n acc) = fs_dec_val_acc (a * 10 ^ k + n) acc.
+Proof.
+  induction fuel as [|f IH]; intros n acc Hn.
+  - exists 0. split; [lia|]. intros a. simpl in *. replace n with 0 by lia. f_equal. lia.
+  - rewrite Nat2Z.inj_succ, Z.pow_succ_r in Hn by lia.
+    assert (Hd : forall a r, fs_dec_val_acc a (fmt_dec_digit (n mod 10) :: r) = fs_dec_val_acc (10 * a + n mod 10) r).
+    { intros a r. pose proof (Z.mod_pos_bound n 10 ltac:(lia)). simpl. unfold fs_is_digit, fmt_dec_digit.
+      replace ((48 <=? 48 + n mod 10) && (48 + n mod 10 <=? 57)) with true by (symmetry; apply andb_true_intro; split; apply Z.leb_le; lia).
+      f_equal. lia. }
+    simpl fmt_digits_fuel. destruct (Z.ltb_spec n 10) as [Hlt|Hge].
+    + exists 1. split; [lia|]. intros a. rewrite Hd. rewrite Z.mod_small by lia. f_equal. lia.
+    + destruct (IH (n / 10) (fmt_dec_digit (n mod 10) :: acc)) as (k & Hk & Hr).
+      { split; [apply Z.div_pos; lia|]. apply Z.div_lt_upper_bound; lia. }
+      exists (k + 1). split; [lia|]. intros a. rewrite Hr, Hd. f_equal.
+      rewrite Z.pow_add_r by lia. pose proof (Z.div_mod n 10 ltac:(lia)). lia.
+Qed.
+
+Lemma dec_ok_nonneg : forall n, 0 <= n -> dec_ok n.
+Proof.
+  intros [|p|p] H; [reflexivity| |lia]. unfold dec_ok, fs_dec_is, fs_dec_val, fmt_dec, fmt_pos_digits.
+  destruct (dec_digits_read (Pos.size_nat p) (Zpos p) [] ltac:(pose proof (size_nat_bound p); lia)) as (k & Hk & Hr).
+  assert (fmt_digits_fuel fmt_dec_digit 10 (Pos.size_nat p) (Z.pos p) [] <> []) as Hne.
+  { assert (exists f, Pos.size_nat p = S f) as (f & ->) by (destruct p; eexists; reflexivity).
+    cbn [fmt_digits_fuel]. destruct (Z.pos p <? 10); [congruence|apply digits_fuel_nonempty; congruence]. }
+  destruct (fmt_digits_fuel fmt_dec_digit 10 (Pos.size_nat p) (Z.pos p) []) as [|d ds] eqn:E; [congruence|].
+  rewrite (Hr 0). cbn [fs_dec_val_acc]. replace (0 * 10 ^ k + Z.pos p) with (Z.pos p) by lia. apply Z.eqb_refl.
 Qed.
 
 (* '{:02X}' read back as two upper-case hex digits, all 256 byte values *)
@@ -277,7 +319,7 @@ Section Sentence.
   Proof.
     intros H1 H2 H3. pose proof (hex2_length _ (hex2_roundtrip (fs_xor_all body) ltac:(pose proof xor_body_range; lia))) as Hh.
     unfold sentence. fold body. simpl length. rewrite app_length. simpl length. rewrite Hh.
-    unfold body, sent_body, join7. rewrite !fmt_dec_digit by assumption.
+    unfold body, sent_body, join7. rewrite !fmt_dec_one_digit by assumption.
     repeat (rewrite app_length; simpl length). lia.
   Qed.
 End Sentence.
@@ -463,18 +505,17 @@ Qed.
 Lemma valid_channel_clean : forall c, valid_channel c -> clean c /\ length c = 1%nat.
 Proof. intros c [->| ->]; (split; [|reflexivity]); repeat constructor; unfold clean_char; lia. Qed.
 
-(* the result of ais_to_nmea_0183 on arguments inside the quantifier of C09, in closed form *)
+(* the result of ais_to_nmea_0183 on a non-empty armored payload of ANY length, in closed form *)
 Lemma frame_closed_form : forall p talker chan fill,
-  valid_talker talker -> valid_channel chan -> armored p -> (1 <= length p <= 540)%nat ->
+  valid_talker talker -> valid_channel chan -> armored p -> (1 <= length p)%nat ->
   let cnt := (Z.of_nat (length p) + 59) / 60 in
   let seq := if 1 <? cnt then [48] else [] in
-  1 <= cnt <= 9 /\ Z.of_nat (length (chunks 60 p)) = cnt /\ clean seq /\ Forall clean (chunks 60 p) /\
+  1 <= cnt /\ Z.of_nat (length (chunks 60 p)) = cnt /\ clean seq /\ Forall clean (chunks 60 p) /\
   ais_to_nmea_0183 p talker chan fill = Ok (sentences_from talker seq chan cnt fill 1 (chunks 60 p)).
 Proof.
   intros p talker chan fill Ht Hc Hp Hlen cnt seq.
   destruct (valid_talker_clean _ Ht) as (Htc & Htn & Htl). destruct (valid_channel_clean _ Hc) as (Hcc & Hcl).
-  assert (Hcnt : 1 <= cnt <= 9).
-  { unfold cnt. split; [apply Z.div_le_lower_bound; lia|]. apply Z.lt_succ_r. apply Z.div_lt_upper_bound; lia. }
+  assert (Hcnt : 1 <= cnt) by (unfold cnt; apply Z.div_le_lower_bound; lia).
   assert (Hseq : clean seq) by (unfold seq; destruct (1 <? cnt); repeat constructor; unfold clean_char; lia).
   assert (Hcs : Forall clean (chunks 60 p)) by (apply chunks_Forall; [lia|apply armored_clean; assumption]).
   split; [exact Hcnt|]. split; [rewrite chunks_length by lia; unfold cnt; f_equal; lia|].
@@ -487,10 +528,14 @@ Proof.
   apply frame_loop_eq; assumption.
 Qed.
 
-(* C09, framing part: every clause of Spec/FrameSpec.v holds of the sentences produced *)
-Theorem frame_wellformed : forall p talker chan fill,
-  valid_talker talker -> valid_channel chan -> armored p -> (1 <= length p <= 540)%nat -> 0 <= fill <= 5 ->
-  exists ss, ais_to_nmea_0183 p talker chan fill = Ok ss /\ fs_wellformed talker chan p fill ss.
+(* C09, framing part, at full strength: for a non-empty armored payload of ANY length and any fill >= 0 every clause
+   of Spec/FrameSpec.v but the length limit holds of the sentences produced; the length limit holds when the payload
+   has at most 540 characters (one-digit fragment count) and the fill is one digit *)
+Theorem frame_clauses : forall p talker chan fill,
+  valid_talker talker -> valid_channel chan -> armored p -> (1 <= length p)%nat -> 0 <= fill ->
+  exists ss, ais_to_nmea_0183 p talker chan fill = Ok ss /\
+             (forall cl, cl <> ClLength -> fs_clause_holds talker chan p fill ss cl = true) /\
+             ((length p <= 540)%nat -> fill <= 9 -> fs_clause_holds talker chan p fill ss ClLength = true).
 Proof.
   intros p talker chan fill Ht Hc Hp Hlen Hfill.
   destruct (frame_closed_form p talker chan fill Ht Hc Hp Hlen) as (Hcnt & Hn & Hseq & Hcs & He).
@@ -501,12 +546,13 @@ Proof.
   pose proof (views_sentences talker seq chan cnt fill Htc Hseq Hcc Htn cs 1 Hcs) as Hv.
   assert (Hsz : Forall (fun c => (1 <= length c <= 60)%nat) cs) by (apply chunks_sizes; lia).
   assert (Hseql : (length seq <= 1)%nat) by (unfold seq; destruct (1 <? cnt); simpl; lia).
-  intros cl. destruct cl; unfold fs_clause_holds, fs_on_views; try rewrite Hv.
-  - (* length *)
+  split; [|intros Hle Hf9; assert (cnt <= 9) by (unfold cnt; apply Z.lt_succ_r; apply Z.div_lt_upper_bound; lia)];
+  [intros cl Hclne; destruct cl; try congruence|]; unfold fs_clause_holds, fs_on_views; try rewrite Hv.
+  11: { (* length *)
     apply forallb_sentences. intros num c Hin Hnum. rewrite Forall_forall in Hcs, Hsz.
     rewrite length_sentence; auto; try lia.
     + specialize (Hsz c Hin). apply Z.leb_le. lia.
-    + unfold fill_of. destruct (num =? cnt); lia.
+    + unfold fill_of. destruct (num =? cnt); lia. }
   - reflexivity.
   - (* start *)
     apply forallb_sentences. intros num c Hin _. rewrite Forall_forall in Hcs. apply prefix_sentence; auto.
@@ -519,7 +565,7 @@ Proof.
     unfold armored in Ha. rewrite Forall_forall in Ha. auto.
   - (* numbering *)
     rewrite length_views. rewrite Hn. apply andb_true_intro. split; [apply Z.leb_le; lia|].
-    apply numbered_views; [apply dec_ok_digit; lia|]. intros i Hi. apply dec_ok_digit. lia.
+    apply numbered_views; [apply dec_ok_nonneg; lia|]. intros i Hi. apply dec_ok_nonneg. lia.
   - (* seq *)
     destruct (views_from talker seq chan cnt fill 1 cs) as [|v0 vs] eqn:E; [reflexivity|].
     assert (forallb (fun v => fs_text_eqb (sv_seq v) seq) (v0 :: vs) = true) as Hall.
@@ -533,7 +579,7 @@ Proof.
     + simpl. rewrite H0. exact Hr.
     + rewrite Hl. unfold seq. destruct (Z.ltb_spec 1 cnt); destruct (Z.leb_spec cnt 1); try lia; reflexivity.
   - (* fill *)
-    apply fill_views; [apply dec_ok_digit; lia|apply dec_ok_digit; lia|lia].
+    apply fill_views; [apply dec_ok_nonneg; lia|apply dec_ok_nonneg; lia|lia].
   - (* concat *)
     rewrite concat_views. unfold cs. rewrite chunks_concat by lia. apply text_eqb_refl.
   - (* channel *)
@@ -541,6 +587,16 @@ Proof.
   - (* seq-single *)
     apply forallb_views. intros. simpl. rewrite length_sentences, Hn.
     unfold seq. destruct (Z.ltb_spec 1 cnt); destruct (Z.eqb_spec cnt 1); try lia; reflexivity.
+Qed.
+
+(* C09 as DESIGN.md states it: 1..540 characters, fill 0..5, every clause *)
+Theorem frame_wellformed : forall p talker chan fill,
+  valid_talker talker -> valid_channel chan -> armored p -> (1 <= length p <= 540)%nat -> 0 <= fill <= 5 ->
+  exists ss, ais_to_nmea_0183 p talker chan fill = Ok ss /\ fs_wellformed talker chan p fill ss.
+Proof.
+  intros p talker chan fill Ht Hc Hp Hlen Hfill.
+  destruct (frame_clauses p talker chan fill Ht Hc Hp ltac:(lia) ltac:(lia)) as (ss & He & Hall & Hl).
+  exists ss. split; [exact He|]. intros cl. destruct cl; try (apply Hall; discriminate). apply Hl; lia.
 Qed.
 
 (* frame_roundtrip (C09 "accepted by the decoder", also used by C02): armoring a bit string and framing it gives
@@ -564,7 +620,7 @@ Proof.
   { assert (1 <= Z.of_nat (length p) <= 540); [|lia]. rewrite Hplen. split; [apply Z.div_le_lower_bound; lia|].
     apply Z.lt_succ_r. apply Z.div_lt_upper_bound; lia. }
   destruct (frame_wellformed p talker chan (Z.of_nat fill) Ht Hc Harm Hpl Hf) as (ss & Hss & Hwf).
-  destruct (frame_closed_form p talker chan (Z.of_nat fill) Ht Hc Harm Hpl) as (Hcnt & Hn & Hseq & Hcs & He2).
+  destruct (frame_closed_form p talker chan (Z.of_nat fill) Ht Hc Harm ltac:(lia)) as (Hcnt & Hn & Hseq & Hcs & He2).
   destruct (valid_talker_clean _ Ht) as (Htc & Htn & Htl). destruct (valid_channel_clean _ Hc) as (Hcc & Hcl).
   set (cnt := (Z.of_nat (length p) + 59) / 60) in *. set (seq := if 1 <? cnt then [48] else []) in *.
   rewrite He2 in Hss. inversion Hss; subst ss.
